@@ -163,6 +163,8 @@ pub struct Func {
 pub struct Module {
     pub types: Vec<Sig>,
     pub imports: Vec<(String, String, u32)>,
+    /// explicit export list (name, index into the defined functions); empty = export every function as f<i>
+    pub exports: Vec<(String, u32)>,
     pub funcs: Vec<Func>,
     pub table: Option<u32>,
     pub elems: Vec<(u32, Vec<u32>)>,
@@ -596,9 +598,13 @@ impl Module {
         }
         // export every function as f<i>
         let mut b = vec![];
-        uleb(&mut b, self.funcs.len() as u64);
-        for i in 0..self.funcs.len() {
-            let name = format!("f{}", i);
+        let exps: Vec<(String, usize)> = if self.exports.is_empty() {
+            (0..self.funcs.len()).map(|i| (format!("f{}", i), i)).collect()
+        } else {
+            self.exports.iter().map(|(n, i)| (n.clone(), *i as usize)).collect()
+        };
+        uleb(&mut b, exps.len() as u64);
+        for (name, i) in exps {
             uleb(&mut b, name.len() as u64);
             b.extend(name.as_bytes());
             b.push(0x00);
